@@ -83,6 +83,16 @@ Theorem C20_usable_many : forall (cs : list cfg) (sched : list (nat * who)),
 Proof. exact C20_usable_many_stmt. Qed.
 Print Assumptions C20_usable_many.
 
+(* Schedules also contain the environment event [ConnCloseOther]: another connection between
+   the same two peer ids is closed at the responder (a stale connection of the initiator's
+   previous incarnation, the spare of a mutual dial).  All theorems above quantify over
+   schedules with this event interleaved anywhere; it changes nothing -- in particular not the
+   record of the handshake in progress -- so it can be erased from any schedule. *)
+Theorem C20_other_connection_closing_inert : forall (c : cfg) (s1 s2 : list who),
+  run deployed c (s1 ++ ConnCloseOther :: s2) = run deployed c (s1 ++ s2).
+Proof. exact (conn_close_other_inert deployed). Qed.
+Print Assumptions C20_other_connection_closing_inert.
+
 (* The wrapper as it was before the repair (no record of handshakes in progress, no waiting):
    two well-formed nodes and a schedule -- final write, return, open, lookup, then register --
    under which Connect succeeded, the responder does register the initiator, and the stream
